@@ -445,7 +445,7 @@ func (se *SpecEnv) ident(name string) Val {
 			}
 		}
 	}
-	sfail("unknown identifier %s", name)
+	sgone("unknown identifier %s", name)
 	return Val{}
 }
 
